@@ -44,7 +44,7 @@ PROPS = {
     "C16": dict(GLUE, prop_file="props/C16.v", generators=ENG + ["T-blocks"] + ["T-tables"], module="harness.p_dyn",
                 slice="ToFunction.v with declared parameters vs the compiled function",
                 trusted=DYN_TRUST + ["ToFunction.v (hand-written; tied by the compile correspondence)"]),
-    "C06": dict(prop_file="props/C06.v", generators=["T-tables"], module="harness.p_valid",
+    "C06": dict(extra_prop_files=LOOK, prop_file="props/C06.v", generators=["T-tables", "T-lookups"], module="harness.p_valid",
                 slice="Validity.v (verdict, message kinds) vs Network.is_valid on exhaustive small graphs and random graphs",
                 trusted=["no axioms", "Validity.v / Graph.v as models of Network.is_valid and the networkx graph (tied by the correspondence)",
                          "the nine conditions as formalised in specs/C06_spec.v",
@@ -80,7 +80,7 @@ PROPS = {
                 trusted=["no axioms", "Lifecycle.v as model of base.py slots, Network.step, to_function's readiness scan and "
                          "casadi.Function's free-symbol rule (tied by lifecycle histories)",
                          "translator facts.py (init_vars resets / step overwrites, read off blocks/*.py -> gen/Tables.v)"] + INITV_TRUST),
-    "C13": dict(prop_file="props/C13.v", generators=["T-tables"], module="harness.p_sel",
+    "C13": dict(GLUE, prop_file="props/C13.v", generators=["T-tables", "T-blocks"], module="harness.p_sel",
                 slice="EngineSel.v vs use/get_current_engine on selection histories; recording engines for every (selected, explicit) pair",
                 trusted=["no axioms", "EngineSel.v as model of engines/core.py::use and the module-level selection",
                          "translator forwarding.py (call sites of blocks/*.py, network.py -> gen/Tables.v) and its classification rule"]),
